@@ -13,13 +13,14 @@ JInit == /\ k \in 1..Len(Obs)
          /\ services = Obs[k].services
          /\ got = [s \in AllSvcs |-> Obs[k].got[s]]
          /\ lastData = [some |-> Obs[k].last.some, d |-> Obs[k].last.d, f |-> Obs[k].last.f]
-         /\ IF Pubs = {} THEN order = <<>> ELSE \E d \in Pubs : order = <<Datum(d)>>
+         /\ IF Pubs = {} THEN order = <<>> ELSE \E x \in Datums : order = <<x>>
          /\ pubpc = [d \in Pubs |-> "done"] /\ pubIdx = [d \in Pubs |-> 1] /\ pubData = [d \in Pubs |-> Datum(d)]
          /\ addpc = [s \in NewSvcs |-> "done"] /\ clrpc = [c \in Clears |-> "done"]
+         /\ setpc = [x \in Setters |-> "done"] /\ filter = (FilterOn \/ Setters # {})
          /\ big = "none" /\ word = <<>>
 JNext == UNCHANGED <<vars, k>>
 JSpec == JInit /\ [][JNext]_<<vars, k>>
 
-Verdict == PrintT(<<"VERDICT", k, IF order = <<>> THEN "none" ELSE order[1].d,
+Verdict == PrintT(<<"VERDICT", k, IF order = <<>> THEN "none" ELSE order[1].d, IF order = <<>> THEN FALSE ELSE order[1].f,
                     Quiescent /\ AllHaveLatest /\ LastDataIsLatest, OnlyPublished>>)
 =============================================================================
